@@ -289,7 +289,8 @@ def check(prog, rep):
             # which sense arm?
             sense = _sense_of_arm(d)
             if sense is None:
-                raise AnalysisError(f"{fi.name}: cannot determine the sense arm of the record at line {d.lineno}")
+                rep.undecided(f"{fi.name}: cannot determine the sense arm of the record at line {d.lineno}")
+                continue
             senses_seen.add(sense)
             typ = kv["type"].value if isinstance(kv["type"], ast.Constant) else None
             fsign = neg_count(kv["fun"].body if isinstance(kv["fun"], ast.Lambda) else kv["fun"]) % 2
@@ -309,7 +310,8 @@ def check(prog, rep):
             fsrc = _compiled_from(kv["fun"], assigns, {"compile_expression"})
             jsrc = _compiled_from(kv.get("jac"), assigns, {"compile_jacobian"}) if "jac" in kv else None
             if fsrc is None or ("jac" in kv and jsrc is None):
-                raise AnalysisError(f"{fi.name}: cannot trace fun/jac of record [{sense}] to compile_expression/compile_jacobian")
+                rep.undecided(f"{fi.name}: cannot trace fun/jac of record [{sense}] to compile_expression/compile_jacobian")
+                continue
             same = jsrc is None or fsrc == jsrc
             rep.ob("R10.4", f"{fi.name}:record[{sense}]", same, f"fun and jac are compiled from the same expression ({fsrc})" if same else f"fun is compiled from {fsrc} but jac from {jsrc}", loc=f"{fi.module.rel}:{d.lineno}", detail="same-expression")
         missing = {"<=", ">=", "=="} - senses_seen
